@@ -15,6 +15,11 @@ CLAIMS = {
         "Voxel convergence (a limit) is explored only.",
    note="oracle: numpy sqrt in cartesian_distance (d*d=d2 sampled).",
    technique="Coq proof over R/Q model + exact differential correspondence (vm_compute in coqc)"),
+
+ "C09": dict(
+   text="Theorems (all inputs): the default-theory rule clause by clause (single sphere / one-member cluster / unset centre or radius / layered member / 30-radius closeness / other shapes / non-scatterer), the 30-radius test in squared form = sqrt form, rule invariant under permutation of members and under rotation about z + shift, 'auto' = naming the default, centroid-centred solver coordinates shift invariant and permutation/rotation covariant, Q instance = R instance. Exact correspondence of the rule incl. configurations exactly on the 30-radius boundary. PARTIAL: order independence / symmetry of the multi-sphere SOLVER output (iterative truncated Fortran code) is explored with tolerances, not proved.",
+   note="oracles: SCSMFO Fortran solver (amncalc/tmatrix_fields); numpy sqrt in np.linalg.norm.",
+   technique="Coq proof over R/Q model of the decision rule and centring + exact differential correspondence (vm_compute in coqc); solver symmetry explored"),
 }
 NOT_YET = {}
 def main():
